@@ -4,11 +4,11 @@ _BASE_NOTE = ('Trusted: CrossHair 0.0.110 symbolic execution + z3 5.1; the harne
 CLAIMED['C15'] = (
     'CrossHair+z3 symbolic execution of dawgie.Version operators over unbounded ints; bounded symbolic exploration of schedule.build version diffs',
     'Order lemma is confirmed over all paths for all non-negative integer components (no bound); the scheduling clause is bounded by engine size.',
-    _BASE_NOTE, 'DESIGN.md C15')
+    _BASE_NOTE, 'DESIGN.md section 3 C15')
 CLAIMED['C14'] = (
     'CrossHair+z3 symbolic execution of the real dataReceived/receive reassembly loops and security.TwistedWrapper over fully symbolic byte streams (two-chunk == one-chunk == reference parser lemma)',
     'Confirmed over all paths for all byte values within the stream-length bound; induction over chunks is a paper argument on top of the discharged two-chunk lemma.',
-    _BASE_NOTE, 'DESIGN.md C14')
+    _BASE_NOTE, 'DESIGN.md section 3 C14')
 _SCHED = 'bounded-history symbolic exploration of the real scheduler/farm code with CrossHair+z3 (event schedule = z3 integer selectors, exhausted within the bound; monitors after every event)'
 _SCHED_TXT = 'Every event history within the stated length/shape bound is covered (Confirmed over all paths per obligation); nothing is claimed for longer histories or larger graphs.'
 CLAIMED['C01'] = (_SCHED, _SCHED_TXT, _BASE_NOTE, 'DESIGN.md section 3 C01')
@@ -17,33 +17,33 @@ CLAIMED['C04'] = (_SCHED, _SCHED_TXT + ' Quiescence is checked as bounded progre
 CLAIMED['C05'] = (_SCHED, _SCHED_TXT, _BASE_NOTE, 'DESIGN.md section 3 C05')
 CLAIMED['C17'] = (
     'CrossHair+z3 symbolic execution of SearchFacade._divide/_scrub over unbounded integer run ids (denotation lemma); bounded symbolic exploration of shelve find/facet against a brute-force oracle',
-    'Denotation lemma confirmed over all paths for all integers within the expression-size bound.', _BASE_NOTE, 'DESIGN.md section 4 C17')
+    'Denotation lemma confirmed over all paths for all integers within the expression-size bound.', _BASE_NOTE, 'DESIGN.md section 3 C17')
 CLAIMED['C20'] = (
     'AST->SMT translation of schedule._delay (z3 Ints + calendar model, re-checked with z3 4.8.12 and cvc5) for every clock instant 1970-2100; CrossHair+z3 bounded histories of defer/periodics',
-    'Kernel clauses are single unsat queries over all instants 1970-2100 and all accepted moments; translator validated against the real function on every run.', _BASE_NOTE, 'DESIGN.md section 5 C20')
-CLAIMED['C13'] = (_SCHED.replace('scheduler/farm', 'shelve lock protocol (comms.Worker)'), _SCHED_TXT, _BASE_NOTE, 'DESIGN.md section 5 C13')
+    'Kernel clauses are single unsat queries over all instants 1970-2100 and all accepted moments; translator validated against the real function on every run.', _BASE_NOTE, 'DESIGN.md section 3 C20')
+CLAIMED['C13'] = (_SCHED.replace('scheduler/farm', 'shelve lock protocol (comms.Worker)'), _SCHED_TXT, _BASE_NOTE, 'DESIGN.md section 3 C13')
 CLAIMED['C18'] = (
     'CrossHair+z3 symbolic execution of chronicle.find/_load with every time of day a z3 integer (days from a pool), compared with a brute-force window filter',
-    'Confirmed over all paths for all seconds of the day of every entry and bound, for the day pool and entry count in the bounds.', _BASE_NOTE, 'DESIGN.md section 4 C18')
+    'Confirmed over all paths for all seconds of the day of every entry and bound, for the day pool and entry count in the bounds.', _BASE_NOTE, 'DESIGN.md section 3 C18')
 CLAIMED['C19'] = (
     'CrossHair+z3: symbolic endpoint string through security.is_sanctioned; solver-exhausted request-path and endpoint/method/certificate/hook matrices through the real fe._static and DynamicContent.render_*',
-    'All endpoint strings within the length bound; every request path within the segment pool/length bound; full registered-endpoint matrix.', _BASE_NOTE, 'DESIGN.md section 5 C19')
+    'All endpoint strings within the length bound; every request path within the segment pool/length bound; full registered-endpoint matrix.', _BASE_NOTE, 'DESIGN.md section 3 C19')
 CLAIMED['C09'] = (
     'CrossHair+z3 shape-symbolic exploration: dependency/granularity/feedback matrices as z3 selectors, real dag.Construct run on each generated engine and compared with the declarations',
-    'Every engine within the stated size/granularity bound is covered (solver-exhausted matrices); nothing is claimed for larger engines.', _BASE_NOTE, 'DESIGN.md section 5 C09')
+    'Every engine within the stated size/granularity bound is covered (solver-exhausted matrices); nothing is claimed for larger engines.', _BASE_NOTE, 'DESIGN.md section 3 C09')
 _STORE = 'bounded-history symbolic exploration of the real shelve back end with CrossHair+z3 (operation sequence = z3 selectors, exhausted within the bound) against a reference dictionary'
-CLAIMED['C06'] = (_STORE, _SCHED_TXT, _BASE_NOTE + ' PostgreSQL back end not executed.', 'DESIGN.md section 4 C06')
-CLAIMED['C07'] = (_STORE + '; invariant evaluated after every file-system/table step (all crash points)', _SCHED_TXT, _BASE_NOTE, 'DESIGN.md section 4 C07')
+CLAIMED['C06'] = (_STORE, _SCHED_TXT, _BASE_NOTE + ' PostgreSQL back end not executed.', 'DESIGN.md section 3 C06')
+CLAIMED['C07'] = (_STORE + '; invariant evaluated after every file-system/table step (all crash points)', _SCHED_TXT, _BASE_NOTE, 'DESIGN.md section 3 C07')
 CLAIMED['C08'] = (
     'AST->SMT (z3 strings) of shelve.util.construct and the subset selection predicate for all names within the length bound; CrossHair+z3 for the construct/dissect round trip on symbolic names; solver-enumerated histories on real shelve files',
-    'Selection lemma: unsat for all name pairs within the length bound (translator validated on every run); histories bounded.', _BASE_NOTE, 'DESIGN.md section 4 C08')
+    'Selection lemma: unsat for all name pairs within the length bound (translator validated on every run); histories bounded.', _BASE_NOTE, 'DESIGN.md section 3 C08')
 CLAIMED['C11'] = (_SCHED.replace('scheduler/farm', 'farm/worker hand-off'), _SCHED_TXT, _BASE_NOTE, 'DESIGN.md section 3 C11')
 _FSM = 'bounded-history symbolic exploration of the real life-cycle machine (state.FSM + transitions + state.dot, submit front end, dispatch archive branch) with CrossHair+z3: event schedule incl. completion of every background step = z3 selectors, exhausted within the bound'
-CLAIMED['C10'] = (_FSM, _SCHED_TXT, _BASE_NOTE, 'DESIGN.md section 5 C10')
-CLAIMED['C12'] = (_FSM, _SCHED_TXT, _BASE_NOTE, 'DESIGN.md section 5 C12')
+CLAIMED['C10'] = (_FSM, _SCHED_TXT, _BASE_NOTE, 'DESIGN.md section 3 C10')
+CLAIMED['C12'] = (_FSM, _SCHED_TXT, _BASE_NOTE, 'DESIGN.md section 3 C12')
 CLAIMED['C16'] = (
     'CrossHair+z3 program-shaped exploration: (factory-kind subset, injected violation, position) as z3 selectors, exhausted; real tools.compliant._verify (rule_01..11) and dag.Construct/schedule.build/periodics run on each generated package',
-    'The generated package space (15 kind subsets x 21 conditions x positions) is exhausted; the solver steers the combinations, the rules run concretely.', _BASE_NOTE, 'DESIGN.md section 5 C16')
+    'The generated package space (15 kind subsets x 22 conditions x positions) is exhausted; the solver steers the combinations, the rules run concretely.', _BASE_NOTE, 'DESIGN.md section 3 C16')
 CLAIMED['C02'] = (
     _SCHED + '; end-to-end clause: the same with real worker execution (worker.Context.run -> Task.do -> shelve store) and comparison with a from-scratch evaluation at quiescence',
     _SCHED_TXT, _BASE_NOTE, 'DESIGN.md section 3 C02')
